@@ -84,7 +84,7 @@ func genWriteCase(rng *rand.Rand, maxSize int, withClose bool) *WriteCase {
 			if rng.Intn(2) == 0 {
 				c.Ops = append(c.Ops, WriteOp{Kind: "write", Typ: typ, Chunks: []string{hx(p)}})
 			} else {
-				c.Ops = append(c.Ops, WriteOp{Kind: "writer", Typ: typ, Chunks: chunkings(rng, p)})
+				c.Ops = append(c.Ops, WriteOp{Kind: "writer", Typ: typ, Chunks: chunkings(rng, p), ThenMisuse: rng.Intn(4) == 0})
 			}
 		}
 	}
@@ -206,6 +206,10 @@ func runWriteCases(ctx *runCtx, cases []*WriteCase, tag string) {
 		}
 		if o.Mutated != "" {
 			bad("caller-buffer-modified", o.Mutated)
+			continue
+		}
+		if o.Misuse != "" {
+			bad("closed-writer-accepts-call", o.Misuse)
 			continue
 		}
 		// unexpected op failures
